@@ -202,7 +202,7 @@ func TermOf(e *scorch.VerifEvent, n *Namer, ver VersionOf) (cf.T, bool) {
 		for _, k := range e.IntDel {
 			iops = append(iops, cf.Pair(cf.Z(n.Key(k)), cf.None))
 		}
-		return cf.App("TIntroduce", cf.U(e.NewSegID), cf.List(b), cf.List(iops), ProjTerm(e.Root)), true
+		return cf.App("TIntroduce", cf.U(e.NewSegID), cf.List(b), cf.List(iops), ProjTerm(e.Root), offsTerm(e.Root)), true
 	case "merge_start":
 		var gs []cf.T
 		for _, t := range e.Tasks {
@@ -215,11 +215,15 @@ func TermOf(e *scorch.VerifEvent, n *Namer, ver VersionOf) (cf.T, bool) {
 		for _, t := range e.Tasks {
 			news = append(news, cf.U(t.New))
 		}
-		return cf.App("TMergeFinish", cf.List(news), ProjTerm(e.Root)), true
+		return cf.App("TMergeFinish", cf.List(news), ProjTerm(e.Root), offsTerm(e.Root)), true
 	case "persist_intro":
-		return cf.App("TPersist", cf.ListOf(e.Persisted, cf.U), ProjTerm(e.Root)), true
+		return cf.App("TPersist", cf.ListOf(e.Persisted, cf.U), ProjTerm(e.Root), offsTerm(e.Root)), true
 	}
 	return "", false
 }
 
 func ProjTerm(root []scorch.VerifSeg) cf.T { return projTerm(root) }
+
+func offsTerm(root []scorch.VerifSeg) cf.T {
+	return cf.ListOf(root, func(s scorch.VerifSeg) cf.T { return cf.U(s.Offset) })
+}
